@@ -66,6 +66,9 @@ fn is_special(d: &D) -> bool {
 }
 
 const MAX_DIGITS: usize = 3000;
+/// operations that would push |scale| beyond this are skipped (a doubling scale under repeated squaring
+/// would otherwise make a later addition materialise 10^(huge))
+const MAX_SCALE: i128 = 3000;
 
 pub fn check_program(c: &Program) -> Verdict {
     if c.pool.is_empty() {
@@ -91,7 +94,7 @@ pub fn check_program(c: &Program) -> Verdict {
             Op::Bin { op, overload, operand } => {
                 let op = op % 3;
                 let j = pick_idx(*operand, pool.len());
-                if op == 2 && acc_digits + c.pool[j].ndigits() > MAX_DIGITS {
+                if op == 2 && (acc_digits + c.pool[j].ndigits() > MAX_DIGITS || (model.scale + c.pool[j].scale as i128).abs() > MAX_SCALE) {
                     skipped += 1;
                     continue;
                 }
@@ -187,7 +190,7 @@ pub fn check_program(c: &Program) -> Verdict {
                 kinds.insert("half");
             }
             Op::Square => {
-                if acc_digits * 2 > MAX_DIGITS {
+                if acc_digits * 2 > MAX_DIGITS || (model.scale * 2).abs() > MAX_SCALE {
                     skipped += 1;
                     continue;
                 }
@@ -200,8 +203,11 @@ pub fn check_program(c: &Program) -> Verdict {
                 let by = (*by % 700) as i64;
                 let (_, sc) = acc.as_bigint_and_exponent();
                 let target = match sc.checked_add(by) {
-                    Some(t) => t,
-                    None => continue,
+                    Some(t) if (t as i128).abs() <= MAX_SCALE => t,
+                    _ => {
+                        skipped += 1;
+                        continue;
+                    }
                 };
                 acc = match form % 3 {
                     0 => acc.with_scale(target),
